@@ -36,6 +36,13 @@ func (p *Prog) varInit(sp *ssa.Package, name string) (ast.Expr, *packages.Packag
 	if pk == nil {
 		return nil, nil, fmt.Errorf("syntax of package %s not loaded", sp.Pkg.Path())
 	}
+	if sp.Pkg.Scope().Lookup(name) == nil {
+		if o := p.canon["global|"+pkgShort(sp.Pkg)+"||"+name]; o != nil {
+			name = o.Name() // renamed variable (anchors.go)
+		} else if o := p.canon["const|"+pkgShort(sp.Pkg)+"||"+name]; o != nil {
+			name = o.Name()
+		}
+	}
 	for _, f := range pk.Syntax {
 		for _, d := range f.Decls {
 			gd, ok := d.(*ast.GenDecl)
